@@ -111,20 +111,25 @@ def C06_1(ctx, facts):
 
 
 def C06_2(ctx, facts):
-    f = facts.fn("client::pool::service::ConnectionPoolService::connect_to")
+    # evaluated on the unit of Service::call with connect_to spliced in: whether the key is computed in `call` and handed to
+    # `connect_to`, or inside `connect_to`, is the same program
+    import inline
+    svc = facts.method("client::pool::service::ConnectionPoolService", "Service", "call")
+    f = inline.inline(facts, svc, 3, lambda ck, raw: norm(ck).endswith("ConnectionPoolService::connect_to"), expand=False)
     ctx.touched(f)
-    tf = f.calls("core::convert::TryFrom::try_from", "std::convert::TryFrom::try_from")
+    PARTS = ("request_parts", "req")
+    tf = [c for c in f.calls("core::convert::TryFrom::try_from", "std::convert::TryFrom::try_from") if "Parts" in " ".join(c.t.get("argtys") or []) + " ".join(c.t.get("targs") or [])]
     ctx.floor("connect_to|key", len(tf), 1, "K::try_from(request_parts) in connect_to")
     for c in tf:
         rr = f.roots(c.args[0])
-        ctx.check(rr and all(r.kind == "arg" and r.desc.startswith("request_parts") for r in rr if r.kind == "arg") and any(r.kind == "arg" for r in rr),
+        ctx.check(rr and all(r.kind == "arg" and r.desc.startswith(PARTS) for r in rr if r.kind == "arg") and any(r.kind == "arg" for r in rr),
                   "connect_to|key-from-parts", "the pool key is computed from this request's parts", "key input roots: %s" % sorted(map(repr, rr)), c.where())
     cn = f.calls("client::conn::connector::Connector::new")
     ctx.floor("connect_to|connector", len(cn), 1, "Connector::new in connect_to")
     for c in cn:
         rr = f.roots(c.args[2])
-        ctx.check(any(r.kind == "arg" and r.desc.startswith("request_parts") for r in rr) and
-                  not any(r.kind == "arg" and not (r.desc.startswith("request_parts")) for r in rr),
+        ctx.check(any(r.kind == "arg" and r.desc.startswith(PARTS) for r in rr) and
+                  not any(r.kind == "arg" and not (r.desc.startswith(PARTS)) for r in rr),
                   "connect_to|connector-from-parts", "the connector dials this request's parts", "connector parts roots: %s" % sorted(map(repr, rr)), c.where())
     co = f.calls("client::pool::Pool::checkout")
     ctx.floor("connect_to|checkout", len(co), 1, "Pool::checkout in connect_to")
